@@ -485,25 +485,46 @@ func (c *Ctx) ruleHandleReissues(rr *RuleRep, uses []handleUse, opts ...string) 
 		}
 		call := calls[0]
 		args := call.Call.Args
-		if len(args) < 3 || args[0] != ssa.Value(hctx) || args[1] != ssa.Value(hcli) {
+		nCtx, nCli := 0, 0
+		var rest []int
+		for i, a := range args {
+			switch {
+			case a == ssa.Value(hctx):
+				nCtx++
+			case a == ssa.Value(hcli):
+				nCli++
+			default:
+				rest = append(rest, i)
+			}
+		}
+		if len(args) < 3 || nCtx != 1 || nCli != 1 {
 			rr.Bad(key, call.Pos(), "the re-issue is not made with the context and client given to Retry (args %v)", argNames(args))
 			continue
 		}
-		// request operand = enclosing call's own parameter
-		reqOK := false
-		ra := c.Resolve(args[2])
-		if len(impl.Params) >= 3 && ra == ssa.Value(impl.Params[2]) {
-			reqOK = true
-		}
-		if !reqOK {
-			rr.Bad(key, call.Pos(), "the re-issued request operand (%s) is not the enclosing call's own request", describeVal(ra))
-			continue
-		}
-		if len(args) >= 4 {
-			if b, ok := constBool(args[3]); !ok || !b {
-				rr.Bad(key+"/dup", call.Pos(), "a retransmission must be issued with dup=true (got %s)", args[3].String())
+		// every other operand = the enclosing call's own parameter at that position (the same request), or dup=true
+		reqOK, dupSeen := true, false
+		for _, i := range rest {
+			ra := c.Resolve(args[i])
+			if b, isK := constBool(ra); isK {
+				dupSeen = true
+				if !b {
+					reqOK = false
+					rr.Bad(key+"/dup", call.Pos(), "a retransmission must be issued with dup=true (got %s)", args[i].String())
+				}
 				continue
 			}
+			if i < len(impl.Params) && impl.Params[i].Type().String() == "bool" {
+				reqOK = false
+				rr.Bad(key+"/dup", call.Pos(), "a retransmission must be issued with dup=true (got %s)", args[i].String())
+				continue
+			}
+			if i >= len(impl.Params) || ra != ssa.Value(impl.Params[i]) {
+				reqOK = false
+				rr.Bad(key, call.Pos(), "the re-issued request operand (%s) is not the enclosing call's own request", describeVal(ra))
+			}
+		}
+		if !reqOK {
+			continue
 		}
 		// returns the call's error
 		okRet := true
@@ -521,6 +542,7 @@ func (c *Ctx) ruleHandleReissues(rr *RuleRep, uses []handleUse, opts ...string) 
 			continue
 		}
 		rr.OK(key, h.Pos(), "handle = %s(ctx, cli, <enclosing request>%s) on the client given to Retry", FuncName(impl), dupNote(len(args)))
+		_ = dupSeen
 	}
 }
 
@@ -595,6 +617,15 @@ func (c *Ctx) ruleStageMonotone(rr *RuleRep, sites []*reqSite, uses []handleUse)
 		key := u.Site.Name + "/handle"
 		if stage2Fns[u.Handle] {
 			rr.OK(key, u.Call.Pos(), "handle is the PUBREL stage itself")
+		} else if reach := c.reachableFuncs([]*ssa.Function{u.Handle}, true); !reach[packPublish] && !reach[pub2.F] && func() bool {
+			for g := range reach {
+				if stage2Fns[g] {
+					return true
+				}
+			}
+			return false
+		}() {
+			rr.OK(key, u.Call.Pos(), "handle re-enters the PUBREL stage and has no call path to (*pktPublish).Pack or %s", FuncName(pub2.F))
 		} else {
 			rr.Bad(key, u.Call.Pos(), "after PUBREC the error hands out %s, which re-sends PUBLISH: a message whose PUBREL may already have reached the broker would be published again", FuncName(u.Handle))
 		}
@@ -623,7 +654,19 @@ func (c *Ctx) ruleStageMonotone(rr *RuleRep, sites []*reqSite, uses []handleUse)
 				g := c.StaticCalleeOf(&call.Call)
 				if g != nil && stage2Fns[g] && DominatedByEdge(pub2.F, in, cs.Edge.B, cs.Edge.K, pub2.Q) {
 					found = true
-					if len(call.Call.Args) == 2 && c.Resolve(call.Call.Args[0]) == c.Resolve(pub2.Ctx) && c.Resolve(call.Call.Args[1]) == pub2.Cli {
+					nC, nL, other := 0, 0, 0
+					for _, a := range call.Call.Args {
+						ra := c.Resolve(a)
+						switch {
+						case ra == c.Resolve(pub2.Ctx):
+							nC++
+						case ra == pub2.Cli:
+							nL++
+						case a.Type().String() == "context.Context" || typeName(a.Type()) == "BaseClient":
+							other++
+						}
+					}
+					if nC == 1 && nL == 1 && other == 0 {
 						rr.OK(pub2.Name+"/continuation", in.Pos(), "after PUBREC the exchange continues in %s with the call's own context and client", FuncName(g))
 					} else {
 						rr.Bad(pub2.Name+"/continuation", in.Pos(), "PUBREL stage is entered with a different context/client than the PUBLISH stage")
